@@ -488,6 +488,44 @@ def field_objects(acc):
                     {"oracle": "different_classes_compare_unequal" if not same else "equal_content_compares_equal", "classes": [type(x).__name__, type(y).__name__], "operator": "==" if eq is not same else "!="},
                     {"case": {"field_objects": [type(x).__name__, type(y).__name__]}, "observed": [eq, ne], "expected": [same, not same]},
                 )
+    # a block or field on the left of == / != with an object that claims to equal everything: not the same class
+    from ..subtypes import Anything
+
+    probes = [Field("k", "v", 3), Entry("a", "k", [Field("f", "v")]), String("s", "v"), Preamble("p"), ExplicitComment("c"), ImplicitComment("c")]
+    for x in probes:
+        acc.trace()
+        acc.case(nontrivial_key=("wildcard", type(x).__name__))
+        try:
+            eq, ne = (x == Anything()), (x != Anything())
+        except Exception as ex:
+            acc.exception(ex, {"field_objects": [type(x).__name__, "Anything"]}, "comparison with a wildcard object")
+            continue
+        if eq is not False or ne is not True:
+            acc.violation({"oracle": "different_classes_compare_unequal", "classes": [type(x).__name__, "Anything"], "operator": "==" if eq is not False else "!="}, {"case": {"field_objects": [type(x).__name__, "Anything"]}, "observed": [eq, ne], "expected": [False, True]})
+
+    class LowerKeyField(Field):
+        """A user's Field whose key reads lower-cased (the stored text keeps its case)."""
+
+        @property
+        def key(self):
+            return self._key.lower()
+
+        @key.setter
+        def key(self, v):
+            self._key = v
+
+    for op in ("pop", "del", "set_field", "setitem"):
+        e = Entry("article", "k", [LowerKeyField("Title", "T", 1), Field("year", "1999", 2)])
+        d = {"title": "T", "year": "1999"}
+        acc.trace()
+        acc.case(nontrivial_key=("lowerkeyfield", op))
+        try:
+            r, m = do(e, d, {"pop": ("pop", "title"), "del": ("del", "title"), "set_field": ("set_field", "title", "N"), "setitem": ("setitem", "title", "N")}[op])
+        except Exception as ex:
+            acc.exception(ex, {"field_objects": ["LowerKeyField", op]}, "operation on a field whose key property is overridden")
+            continue
+        if r != m or not order_ok(e, d):
+            acc.violation({"oracle": "result_equals_dict", "op": op, "key_kind": "a Field subclass that overrides key"}, {"case": {"field_objects": ["LowerKeyField", op]}, "observed": [repr(r), [f.key for f in e.fields]], "expected": [repr(m), list(d)]})
     for target in ("t", "other", "fresh"):
         e = Entry("article", "k", [Field("t", "T", 1), Field("other", "O", 2)])
         d = {"t": "T", "other": "O"}
